@@ -325,7 +325,7 @@ def probe(repo, consts, measurements, offered=None, table=None):
     rsa = list(consts.get('HostKeyTest.RSA_FAMILY', []))
     tbl = table if table is not None else {'key': {t: [['<versions>']] for t in set(types) | set(rsa)}}
     cur = {'i': -1, 'connected': False}
-    events = {'records': [], 'connects': 0, 'closes': 0, 'kexinits': [], 'inits': 0}
+    events = {'records': [], 'connects': 0, 'closes': 0, 'kexinits': [], 'inits': 0, 'log': []}
     by_type = {m[0]: m for m in measurements}
     server_kex = _Tok('<server_kex>', {'key_algorithms': list(offered if offered is not None else types), 'server': _Tok('<server_kex.server>', {'encryption': ['<enc>'], 'mac': ['<mac>'], 'compression': ['none'], 'languages': ['']})})
     env = dict(consts)
@@ -340,10 +340,12 @@ def probe(repo, consts, measurements, offered=None, table=None):
         if t == 's.connect':
             cur['connected'] = True
             events['connects'] += 1
+            events['log'].append('connect')
             return (True, None)
         if t == 's.close':
             cur['connected'] = False
             events['closes'] += 1
+            events['log'].append('close')
             return (True, None)
         if t == 's.get_banner':
             return (True, (Opaque(), [], None))
@@ -359,6 +361,7 @@ def probe(repo, consts, measurements, offered=None, table=None):
             return (True, Opaque())
         if t == 'kex_group.send_init':
             events['inits'] += 1
+            events['log'].append('init')
             return (True, None)
         if t == 'kex_group.recv_reply':
             return (True, b'<blob of %s>' % (state['type'] or '?').encode())
